@@ -65,7 +65,7 @@ inductive Lab
   /-- the `renew` flag of an app -/
   | setRenew (aid : Nat) (b : Bool)
   /-- ghost `evicted`-dict entry of an app -/
-  | ghost (aid : Nat)
+  | ghost (aid : Nat) (v : Option (Nat × Option Int))
   | dropDangling (aid : Nat)
   | forgetIdentity (aid : Nat)
   | tree
@@ -80,7 +80,7 @@ def Lab.target : Lab → Option Nat
   | .acquire a _ => some a
   | .appMeta a => some a
   | .setRenew a _ => some a
-  | .ghost a => some a
+  | .ghost a _ => some a
   | .dropDangling a => some a
   | .forgetIdentity a => some a
   | .tree => none
@@ -97,9 +97,10 @@ inductive LPrim : Lab → Cell → Cell → Prop
       a'.limits = a.limits → a'.traits = a.traits → a'.alloc = a.alloc → a'.lease = a.lease →
       a'.blacklisted = a.blacklisted → a'.schedOnce = a.schedOnce → a'.retention = a.retention →
       a'.prio = a.prio → a'.unschedule = a.unschedule → a'.renew = a.renew →
+      (a'.evFrom = a.evFrom ∨ a'.evFrom = none) →
       LPrim (.appMeta a.id) c (c.setApp a')
   | setRenew {c a b} : c.app? a.id = some a → LPrim (.setRenew a.id b) c (c.setApp { a with renew := b })
-  | ghost {c a v} : c.app? a.id = some a → LPrim (.ghost a.id) c (c.setApp { a with evFrom := v })
+  | ghost {c a v} : c.app? a.id = some a → LPrim (.ghost a.id v) c (c.setApp { a with evFrom := v })
   | dropDangling {c a sid} : c.app? a.id = some a → a.server = some sid → c.srv? sid = none →
       LPrim (.dropDangling a.id) c (c.setApp { a with server := none, evicted := true })
   | forgetIdentity {c a k g grp} : c.app? a.id = some a → a.identity = some k → a.group = some g →
